@@ -1,5 +1,6 @@
 import BoaVerif.Common.Proto
 import BoaVerif.C01.Model
+import BoaVerif.C01.Coerce
 open BoaVerif BoaVerif.Proto BoaVerif.C01
 
 abbrev P (α : Type) := List String → Option (α × List String)
@@ -133,6 +134,63 @@ def showVal : Val → String
   | .err c => "error:" ++ c
   | .fn _ => "object"
 
+-- ------------------------------------------------------------------ second model: operators and coercions
+namespace Co
+
+def pPrim (t : String) : Option Coerce.Prim :=
+  match t.toList with
+  | ['u'] => some .undef
+  | ['n'] => some .null
+  | ['t'] => some (.bool true)
+  | ['f'] => some (.bool false)
+  | ['N'] => some .nan
+  | 'i' :: r => (String.ofList r).toInt?.map .num
+  | 's' :: r => some (.str (unhex (String.ofList r)))
+  | _ => none
+
+def pRet (t : String) : Option (Option Coerce.Ret) :=
+  match t.toList with
+  | ['-'] => some none
+  | ['O'] => some (some .object)
+  | 'T' :: r => (String.ofList r).toNat?.map (fun n => some (.throws n))
+  | 'P' :: r => (pPrim (String.ofList r)).map (fun p => some (.prim p))
+  | _ => none
+
+def pVal (t : String) : Option Coerce.Val :=
+  match t.toList with
+  | 'o' :: r =>
+    (match (String.ofList r).splitOn ":" with
+     | [i, v, s] => do
+       let id ← i.toNat?
+       let vo ← pRet v
+       let ts ← pRet s
+       some (.obj { id := id, valueOf := vo, toStr := ts })
+     | _ => none)
+  | _ => (pPrim t).map .prim
+
+def pBin : String → Option Coerce.BinOp
+  | "add" => some .add | "sub" => some .sub | "mul" => some .mul | "lt" => some .lt | "gt" => some .gt | "le" => some .le | "ge" => some .ge
+  | "eq" => some .eq | "ne" => some .ne | "seq" => some .seq | "sne" => some .sne | _ => none
+def pUn : String → Option Coerce.UnOp
+  | "neg" => some .neg | "plus" => some .plus | "not" => some .not | "typeof" => some .typeof | "template" => some .template
+  | "string" => some .string | "number" => some .number | _ => none
+
+def showRes (r : Coerce.R Coerce.Val) : String :=
+  let log := if r.2.isEmpty then "-" else ",".intercalate r.2
+  match r.1 with
+  | .ok (.prim p) =>
+    let ty := Coerce.typeOf (.prim p)
+    "ok " ++ ty ++ ":" ++ hexOf (Coerce.toStringP p) ++ " " ++ log
+  | .ok (.obj _) => "ok object:- " ++ log
+  | .error .typeError => "err TypeError " ++ log
+  | .error (.thrown t) => "err thrown:" ++ toString t ++ " " ++ log
+
+def run : List String → String
+  | [op, a, b] => (match pBin op, pVal a, pVal b with | some o, some x, some y => showRes (Coerce.binary o x y []) | _, _, _ => "bad-op")
+  | [op, a] => (match pUn op, pVal a with | some o, some x => showRes (Coerce.unary o x []) | _, _ => "bad-op")
+  | _ => "bad-op"
+end Co
+
 def step (_ : Unit) (toks : List String) : Unit × String :=
   match toks with
   | "run" :: m :: rest =>
@@ -148,6 +206,7 @@ def step (_ : Unit) (toks : List String) : Unit × String :=
          | .fuel => "fuel -"
        ((), comp ++ " " ++ ",".intercalate (s.out.reverse.map hexOf))
      | _ => ((), "bad-op"))
+  | "co" :: rest => ((), Co.run rest)
   | _ => ((), "bad-op")
 
 def main : IO Unit := serve step ()
